@@ -133,24 +133,38 @@ class MovedMixed(Mixed):
         return eval_moved_inter('C01', self.name, scene[0], scene[1])
 
 
+def _pose_families(pose, big):
+    pts = A.B1 if big else A.B0
+    normals = A.D2 if big else A.D1
+    linelikes = [mk_linelike(k, p, q) for k in KINDS for p in pts for q in pts if p != q]
+    planes = plane_set(pts, normals)
+    points = [X.Pt(p) for p in A.B0H]
+    return [LL(pose, pts), Mixed('LP', pose, planes, linelikes, chunk=4), Mixed('PP', pose, planes, planes, both_orders=False, chunk=8),
+            Mixed('PX', pose, points, linelikes + planes + points, chunk=4)], planes, linelikes, points
+
+
 def families(tier):
     fams = []
     if tier == 'quick':
-        pts, normals, ppts = A.B0, A.D1, A.B0H
+        for pose in A.poses(tier):
+            f, planes, linelikes, points = _pose_families(pose, False)
+            fams += f
+        fams = A.with_int_mode(fams, tier)
+        st = 7
     else:
-        pts, normals, ppts = A.B1, A.D2, A.B0H
-    linelikes = [mk_linelike(k, p, q) for k in KINDS for p in A.B0 for q in A.B0 if p != q]
-    if tier != 'quick':
-        linelikes = [mk_linelike(k, p, q) for k in KINDS for p in A.B1 for q in A.B1 if p != q]
-    planes = plane_set(A.B0 if tier == 'quick' else A.B1, normals)
-    points = [X.Pt(p) for p in ppts]
-    for pose in A.poses(tier):
-        fams.append(LL(pose, pts))
-        fams.append(Mixed('LP', pose, planes, linelikes, chunk=4))
-        fams.append(Mixed('PP', pose, planes, planes, both_orders=False, chunk=8))
-        fams.append(Mixed('PX', pose, points, linelikes + planes + points, chunk=4))
-    fams = A.with_int_mode(fams, tier)
-    st = 7 if tier == 'quick' else 2
+        # budget: the big alphabets (box B1: 552 ordered point pairs, normals D2) for one numeric / constructor-form
+        # variant per pose, the small alphabets (B0, D1) for every other variant
+        primary = ('/P0#int', '/PZ#int#formB', '/P1', '/P2', '/P3', '/P4')
+        big, small = [], []
+        for pose in A.poses(tier):
+            f, planes, linelikes, points = _pose_families(pose, True)
+            big += f
+            f2, planes, linelikes, points = _pose_families(pose, False)
+            small += f2
+        big = [f for f in A.with_int_mode(big, tier) if f.name[f.name.index('/'):] in primary]
+        small = [f for f in A.with_int_mode(small, tier) if f.name[f.name.index('/'):] not in primary]
+        fams = big + small
+        st = 2
     fams.append(MovedMixed('moved', A.P1, planes[::st] + linelikes[::st * 5], linelikes[::st] + planes[::st] + points[::3], both_orders=False, chunk=2))
     return fams
 
